@@ -206,6 +206,26 @@ def projectResetMixed {K : Type} [Zero K] (modes xs : List Nat) (ρ : Tens K) : 
         | none => idx a)
     else 0
 
+/-! ### `_apply_channel`, `alloc`, `dealloc` -/
+
+/-- `_apply_channel(kraus_ops, [m])` on a mixed state: `Σ_k K_k ρ K_k†` (an empty list gives the zero tensor);
+each Kraus operator is given with its entrywise conjugate -/
+def applyChannel1 {K : Type} [Zero K] [Add K] [Mul K] (D : Nat) (kraus : List ((Nat → Nat → K) × (Nat → Nat → K)))
+    (m : Nat) (ρ : Tens K) : Tens K :=
+  fun idx => kraus.foldr (fun k acc => applyAt1 D k.2 (2 * m + 1) (applyAt1 D k.1 (2 * m) ρ) idx + acc) 0
+
+/-- `alloc(k)`: tensor product with `k` vacuum modes at the end (`pure`: one axis per mode) -/
+def allocVac {K : Type} [Zero K] [Mul K] (pure : Bool) (n k : Nat) (ψ : Tens K) : Tens K :=
+  fun idx =>
+    let lo := if pure then n else 2 * n
+    let hi := if pure then n + k else 2 * (n + k)
+    if (List.range' lo (hi - lo)).all (fun a => idx a == 0) then ψ idx else 0
+
+/-- `dealloc(modes)`: a pure state is mixed first, then the listed modes are traced out -/
+def dealloc {K : Type} [Zero K] [Add K] [Mul K] (cj : K → K) (D n : Nat) (pure : Bool) (modes : List Nat)
+    (ψ : Tens K) : Tens K :=
+  partialTrace D n modes (if pure then mix cj ψ else ψ)
+
 /-! ### Gaussian integers: the scalar type the driver computes with (exact in float64) -/
 
 structure GInt where
